@@ -141,6 +141,18 @@ PROPS = {
         "assumptions": COMMON_ASSUMPTIONS,
         "explanation": "open-wait model theorems + open correspondence + e2e",
     },
+    "C11": {
+        "level": "proof",
+        "lean_modules": ["AnyTLS.Props.C11"],
+        "groups": [{"group": "sched", "quick_cases": 800, "thorough_cases": 20000,
+                    "ignore_sigs": ["task_never_finishes/session_concurrent", "not_closed_after_cause/session_concurrent", "transport_not_shut_down/session_concurrent", "attempt_after_close_succeeds/session_concurrent", "stream_not_released/session_concurrent"]}],
+        "rule": "sched case = one real session (client 5/6, server 1/6; 4 padding schemes incl. multi-piece packets and none) and 2-4 tasks with programs over {open, stop buffering, data on the own stream (1..70000 bytes, i.e. up to 2 frames), data on a fixed stream id, control frames, close}; every task parks at the 9 scheduling points of the write / open / close paths and before each operation; a `pick k` line releases the k-th parked task (mod their number), everything then runs to quiescence under the paused clock; 3-40 picks, then `drain` (lowest parked id first); in half of the cases a termination cause (EOF, read error, Alert, transport write budget 0..3) is injected at a random position; "
+                "fixed: for 8 canonical scenarios (two / three tasks opening and writing on a fresh client session while the initial buffer is flushed; with close(), EOF, Alert, write failure) every pick sequence in {0,1,2}^4 (quick) / {0,1,2}^7 (thorough); non-trivial = more than 6 lines; distinct by SHA-1 of the op lines",
+        "level_text": "kernel-checked theorems over the interleaving model M13 (Model/Conc.lean): ANY number of tasks, each atomic action of the write path a separate step, any task may run between any two steps, tasks may appear at any time, the transport may start refusing writes at any time. For every reachable state: the bytes on the wire are a prefix of the concatenation, in acceptance order, of WHOLE units - the initial buffer, entire encoded frames, entire Waste frames (contiguous, whole_units); the frames of one task are accepted in submission order without gaps (program_order, nothing_skipped); the initial buffer - for a client exactly the Settings frame - precedes everything (settings_first); a stream's SYN is submitted before the data its opener writes, hence precedes it on the wire (syn_before_own_data); with no write in progress and no transport failure everything accepted is on the wire or in the initial buffer (nothing_dropped); the buffer lock is exclusive (one_writer); a failed write closes the session for good (failure_closes). The scheduler of the correspondence check only composes these atomic actions (stepTask_reach). Tied to the code by the sched differential run: status of every task (parked at which point / blocked / done with which results) and the wire after EVERY scheduling decision",
+        "level_note": "trusted: Lean kernel, harness+driver glue (sched), the placement of the scheduling points (feature verif) - the theorems allow pre-emption between ANY two atomic actions, the harness can force it only at the hook points (before/after each lock, before each transport write, around the closed check of open_stream); tokio's Mutex is modelled as FIFO with direct hand-off (its documented behaviour); frames written by the receive loop itself (SYNACK, HeartResponse, settings answers) use the same write_frame and are covered by the theorems as further tasks, not by the sched scenarios",
+        "assumptions": COMMON_ASSUMPTIONS,
+        "explanation": "interleaving model theorems + sched correspondence under a controlled scheduler",
+    },
     "C12": {
         "level": "proof",
         "lean_modules": ["AnyTLS.Props.C12"],
